@@ -19,7 +19,7 @@ func init() {
 		NotDecided: "byte identity of source and destination stores; packfile splitting arithmetic.",
 	}
 	props["C13"] = &propSpec{
-		Rules:      []string{"C13-a"},
+		Rules:      []string{"C13-a", "C13-b", "C13-c"},
 		Decides:    "write-order necessary conditions of crash consistency on every path: the table object is written after its derived indices (C13-a), after the worker join (C13-b); refs are written with a sum that is data-dependent on SaveCommit (C13-c); fetch saves refs after objects (C09-a); prune deletes commits last (C12-e); no commit before its parents (C07-b); SQL multi-statement writes run in one transaction (C13-g).",
 		NotDecided: "repeatability of the operation after a crash; effects of a crash inside a multi-branch pull; atomicity of the underlying stores (trusted).",
 	}
